@@ -311,3 +311,19 @@ package native
 //@ may-panic
 //@ opt frame off
 //@ requires p != nil && ic != nil && ic.DAO != nil
+
+// ---- (C04) the oracle service is handed only requests that are in the contract's storage after
+// the block: a request created by a transaction that failed later is in newRequests but not in
+// storage, and must be filtered out.
+//@ prop C04
+//@ spec reqKey(id uint64) string
+//@ func makeRequestKey
+//@ assumed
+//@ pure
+//@ ensures[key] string(result) == reqKey(id)
+//@ func (*Oracle).updateCache
+//@ may-panic
+//@ opt frame off
+//@ requires d != nil
+//@ loop 0 invariant[stored] forallkeys(reqs, k, has(reqs, k) && visited(k) ==> has(dao.kv(d, o.ID), reqKey(k)))
+//@ call AddRequests requires[stored] forallkeys(arg1, k, has(arg1, k) ==> has(dao.kv(d, o.ID), reqKey(k)))
